@@ -260,6 +260,30 @@ def K(c, isint=False):
 TOP = ('T',)
 
 
+class Dim:
+    """a value outside the affine domain of which only the physical dimension is known: it scales with the stream like price^deg
+    (deg 0: a pure number) and is (tinv) or is not invariant under a translation of the whole stream"""
+    __slots__ = ('deg', 'tinv')
+
+    def __init__(self, deg, tinv):
+        self.deg, self.tinv = Fraction(deg), bool(tinv)
+
+    def __repr__(self):
+        return 'Dim[price^%s%s]' % (self.deg, ', translation-invariant' if self.tinv else '')
+
+
+def dim_of(v):
+    if isinstance(v, Dim):
+        return v
+    if isinstance(v, Aff):
+        if not v.lin:
+            return Dim(0, True)
+        if v.w.is_zero():
+            return Dim(1, True)
+        return Dim(1, False)
+    return None
+
+
 class Obj:
     """struct / tuple / enum payload: mutable field map (references point at (Obj.f, name) slots)"""
     __slots__ = ('kind', 'variant', 'f')
@@ -301,6 +325,9 @@ def join(a, b):
         return Obj(a.kind, {k: join(a.f.get(k, TOP), b.f.get(k, TOP)) for k in set(a.f) | set(b.f)}, a.variant)
     if isinstance(a, Bool) and isinstance(b, Bool) and a.val == b.val and a.val is not None:
         return a
+    da, db = dim_of(a), dim_of(b)
+    if da is not None and db is not None and da.deg == db.deg:
+        return Dim(da.deg, da.tinv and db.tinv)
     return TOP
 
 
@@ -345,6 +372,7 @@ class Run:
         self.unknown_calls = set()
         self.lenient_stores = False
         self.lost_stores = 0
+        self.dim_events = []      # dimensionally inconsistent operations met on this path
 
     def choose(self, n):
         if self.pos < len(self.script):
@@ -425,6 +453,30 @@ class Run:
 
     # ---- arithmetic ------------------------------------------------------------------------------------------
     def arith(self, op, a, b):
+        r = self.arith_aff(op, a, b)
+        if r is not TOP and not is_top(r):
+            return r
+        da, db = dim_of(a), dim_of(b)
+        if da is None or db is None:
+            return TOP
+        if op in ('Add', 'Sub'):
+            # the literal zero has every dimension
+            if isinstance(a, Aff) and not a.lin and a.c.is_zero():
+                return Dim(db.deg, db.tinv)
+            if isinstance(b, Aff) and not b.lin and b.c.is_zero():
+                return Dim(da.deg, da.tinv)
+            if da.deg == db.deg:
+                return Dim(da.deg, da.tinv and db.tinv)
+            # a pure number added to a priced quantity: the sum has no dimension
+            self.dim_events.append(('add', da, db))
+            return TOP
+        if op == 'Mul':
+            return Dim(da.deg + db.deg, (da.tinv or da.deg == 0) and (db.tinv or db.deg == 0) and (da.tinv and db.tinv))
+        if op == 'Div':
+            return Dim(da.deg - db.deg, da.tinv and db.tinv)
+        return TOP
+
+    def arith_aff(self, op, a, b):
         if not isinstance(a, Aff) or not isinstance(b, Aff):
             return TOP
         isint = a.isint and b.isint
@@ -508,6 +560,7 @@ class Run:
         if op in ('Eq', 'Ne', 'Lt', 'Le', 'Gt', 'Ge'):
             if isinstance(a, Aff) and isinstance(b, Aff):
                 if a.lin or b.lin:
+                    self.compare_dims(op, a, b, dim_of(a), dim_of(b))
                     return Bool(None, None, True)
                 d = a.c - b.c
                 if d.is_const():
@@ -526,10 +579,26 @@ class Run:
                 if op == 'Le':
                     return Bool(None, ('ge0', -d))
                 return Bool(None)
+            da, db = dim_of(a), dim_of(b)
+            if da is not None and db is not None:
+                self.compare_dims(op, a, b, da, db)
+                return Bool(None, None, True)
             if is_top(a) or is_top(b):
                 return Bool(None, None, True)
             return Bool(None)
         return TOP
+
+    def compare_dims(self, op, a, b, da, db):
+        """a comparison is meaningful for every scale and offset of the stream when both sides have the same dimension and the same
+        behaviour under translation, or when a translation-invariant quantity is compared with zero"""
+        def is_zero(v):
+            return isinstance(v, Aff) and not v.lin and v.c.is_zero()
+        if da.deg == db.deg and da.tinv == db.tinv:
+            return
+        for x, dx, y, dy in ((a, da, b, db), (b, db, a, da)):
+            if is_zero(y) and dx.tinv:
+                return
+        self.dim_events.append(('compare', op, repr(a), repr(b)))
 
     # ---- execution -------------------------------------------------------------------------------------------
     def call_fn(self, body, args, depth=0):
@@ -655,7 +724,9 @@ class Run:
             if isinstance(v, Bool) and kind == 'IntToInt':
                 if v.val is not None:
                     return K(int(v.val), True)
-                return TOP
+                return Dim(0, True)
+            if isinstance(v, Dim) and kind in ('IntToFloat', 'IntToInt', 'FloatToFloat'):
+                return v
             if not isinstance(v, Aff):
                 return TOP if not isinstance(v, Ref) else v
             if kind == 'IntToFloat':
@@ -677,6 +748,8 @@ class Run:
             v = self.operand(loc, r['a'])
             if r['op'] == 'Neg' and isinstance(v, Aff):
                 return Aff(v.lin, -v.w, -v.c, v.isint, {k: -x for k, x in v.co.items()} if v.co is not None else None)
+            if r['op'] == 'Neg' and isinstance(v, Dim):
+                return v
             if r['op'] == 'Not' and isinstance(v, Bool):
                 c = v.cond
                 if c is not None:
@@ -716,6 +789,17 @@ class Run:
                 return TOP
             if name == 'abs' and isinstance(a[0], Aff) and not a[0].lin:
                 return K(fresh('abs', (a[0].c,), False))
+            d0 = dim_of(a[0]) if a else None
+            if name == 'abs' and d0 is not None:
+                return Dim(d0.deg, d0.tinv)
+            if name == 'sqrt' and d0 is not None:
+                return Dim(d0.deg / 2, d0.tinv)
+            if name in ('max', 'min') and len(a) == 2 and d0 is not None and dim_of(a[1]) is not None and dim_of(a[1]).deg == d0.deg:
+                return Dim(d0.deg, d0.tinv and dim_of(a[1]).tinv)
+            if name == 'mul_add' and len(a) == 3:
+                return self.arith('Add', self.arith('Mul', a[0], a[1]), a[2])
+            if name == 'recip' and d0 is not None:
+                return Dim(-d0.deg, d0.tinv)
             return TOP
         # the circular buffer: one abstract element for all slots, the capacity as a configuration quantity
         if d.startswith(WINDOW + '::') or d.startswith(WINDOW + '<'):
